@@ -173,6 +173,17 @@ func (e *Enc) call(x *ssa.Call, st *State) {
 			}
 		}
 	}
+	if callee == nil && com.IsInvoke() {
+		pnames = []string{"recv"}
+		msig := com.Method.Type().(*types.Signature)
+		for i := 0; i < msig.Params().Len(); i++ {
+			n := msig.Params().At(i).Name()
+			if n == "" || n == "_" {
+				n = fmt.Sprintf("arg%d", i)
+			}
+			pnames = append(pnames, n)
+		}
+	}
 	if len(ct.Params) > 0 {
 		pnames = ct.Params
 	}
